@@ -145,7 +145,14 @@ func genAlloc(seed uint64, index int, tier string) *AScenario {
 	k := or.between(1, 4)
 	for i := 0; i < k; i++ {
 		h := or.n(nh)
-		sc.Cycle = append(sc.Cycle, genOp(or, h, len(sc.Hays[h])/2))
+		op := genOp(or, h, len(sc.Hays[h])/2)
+		for op.API == "PkgMatch" {
+			// the package-level helpers compile a new value per call; what they leave in the
+			// package-global pools is garbage a real sync.Pool drops at the next GC, but the
+			// fault-free simulated pool keeps it - not memory "held per Regex"
+			op = genOp(or, h, len(sc.Hays[h])/2)
+		}
+		sc.Cycle = append(sc.Cycle, op)
 	}
 	sc.Reps = pick(or, []int{40, 100, 300})
 	if tier == "thorough" {
